@@ -468,7 +468,7 @@ func main() {
 	// 3. concurrent submissions and head changes (state clauses at snapshot points)
 	nc := 8
 	if run.Thorough() {
-		nc = 200
+		nc = 100
 	}
 	core.VerifSetEvictionInterval(3 * time.Millisecond) // the real idle-eviction tick runs during the concurrent histories
 	poolLifetime = 10 * time.Millisecond
